@@ -178,7 +178,14 @@ static sqfs_s32 proxy_do_block(sqfs_compressor_t *c, const sqfs_u8 *in, sqfs_u32
 		if (sim_store_mode)
 			return 0;
 	}
-	return p->real->do_block(p->real, in, size, out, outsize);
+	{
+		sqfs_s32 ret = p->real->do_block(p->real, in, size, out, outsize);
+		/* "cmpyield 2": a second scheduling point between the compressor filling the caller's output buffer and the caller
+		   looking at it - where a preempted worker thread really stands most of the time */
+		if (!p->uncompress && cmp_yield >= 2)
+			sim_yield("compressed");
+		return ret;
+	}
 }
 
 static sqfs_object_t *proxy_copy(const sqfs_object_t *o);
